@@ -518,10 +518,9 @@ func (rt *runtime) convertCallParameter(v Value, t reflect.Type) (reflect.Value,
 					}
 				}
 
-				rv, err := v.Call(nullValue, l...)
-				if err != nil {
-					panic(err)
-				}
+				// Call the function inside the running evaluation: an exception it throws
+				// travels on as that exception instead of being flattened into a Go error.
+				rv := v.call(rt, nullValue, l...)
 
 				if t.NumOut() == 0 {
 					return nil
